@@ -2353,27 +2353,33 @@ func (t *itype) needsPtrFor(it *itype) bool {
 		return false
 	}
 	for name := range it.methods() {
-		m, index := t.lookupMethod(name)
-		if m == nil || m.kind != funcDecl || len(m.child[0].child) == 0 || m.child[0].child[0].lastChild().kind != starExpr {
-			continue
-		}
-		// The method has a pointer receiver: it must be promoted through an embedded pointer.
-		promoted := false
-		for ft := t; len(index) > 0 && !promoted; index = index[1:] {
-			for ft.cat == linkedT {
-				ft = ft.val
-			}
-			if index[0] >= len(ft.field) {
-				return false
-			}
-			ft = ft.field[index[0]].typ
-			promoted = ft.cat == ptrT
-		}
-		if !promoted {
+		if t.needsPtrForMethod(name) {
 			return true
 		}
 	}
 	return false
+}
+
+// needsPtrForMethod returns true if method name of the non pointer type t is declared with
+// a pointer receiver and is not promoted through an embedded pointer.
+func (t *itype) needsPtrForMethod(name string) bool {
+	m, index := t.lookupMethod(name)
+	if m == nil || m.kind != funcDecl || len(m.child[0].child) == 0 || m.child[0].child[0].lastChild().kind != starExpr {
+		return false
+	}
+	// The method has a pointer receiver: it must be promoted through an embedded pointer.
+	for ft := t; len(index) > 0; index = index[1:] {
+		for ft.cat == linkedT {
+			ft = ft.val
+		}
+		if index[0] >= len(ft.field) {
+			return false
+		}
+		if ft = ft.field[index[0]].typ; ft.cat == ptrT {
+			return false
+		}
+	}
+	return true
 }
 
 // defaultType returns the default type of an untyped type.
